@@ -89,6 +89,12 @@ class C07(Check):
         return a
 
     def initial_states(self):
+        import itertools
+        # the shipped 'illumina' profile (uniform coverage by definition) with the default and with custom
+        # neutral regions, loaded one after the other in one process: a uniform two-copy sample reads 2.0 each time
+        for r in (1, 2, 3):
+            for perm in itertools.permutations((None, "R1", "R2"), r):
+                yield ("illumina", perm)
         n = 0
         for spec in self.specs():
             for build in ("hg19", "hg38"):
@@ -106,6 +112,8 @@ class C07(Check):
                                 yield (spec, build, si, aw, nc, src, None)
 
     def successors(self, st):
+        if st[0] == "illumina":
+            return
         spec, build, si, aw, nc, src, tr = st
         if tr is not None:
             return
@@ -125,6 +133,8 @@ class C07(Check):
         from aldy.common import AldyException
         from aldy import cn as cnmod
 
+        if st[0] == "illumina":
+            return self._eval_illumina(st)
         spec, build, si, aw, nc, src, tr = st
         w = worlds.world(spec)
         gene = worlds.gene_of(spec, build)
@@ -222,4 +232,27 @@ class C07(Check):
                        note={"structure": [c[0] for c in STRUCTS[si]], "awkward": aw, "neutral": str(neutral), "profile": src, "transformation": tr})
 
 
+def _eval_illumina(self, st):
+    from aldy.profile import Profile
+    from aldy.sam import Sample
+    from .c14 import nat2_files
+
+    P = {"dir": worlds.tmpdir()}
+    path, regs = nat2_files(P)
+    gene = worlds.gene_of(("shipped", "nat2"), "hg19")
+    v = []
+    vals = []
+    for rk in st[1]:
+        prof = Profile.load(gene, "illumina", regs[rk] if rk else None)
+        sm = Sample(gene, prof, path)
+        for (gi, r), val in sm.coverage._region_coverage.items():
+            rng = gene.regions[gi][r]
+            if rng.end - rng.start > 120 and abs(val - 2.0) > 0.02:
+                v.append(("norm/illumina-profile-not-2", f"neutral regions loaded in the order {st[1]}: with {rk or 'the default region'} region {r} reads {val:.3f}"))
+                break
+        vals.append(round(sm.coverage._region_coverage[(0, "e2")] if (0, "e2") in sm.coverage._region_coverage else 0, 3))
+    return Outcome(v, key=("illumina", tuple(vals)), nontrivial=len(st[1]) > 1, note={"order": st[1], "e2_depth": vals})
+
+
+C07._eval_illumina = _eval_illumina
 CHECK = C07
